@@ -241,7 +241,7 @@ class Simulation(object):
 
         self.wrap_up_servers(time_of_deadlock)
         self.times_to_deadlock = {
-            state: time_of_deadlock - self.times_dictionary[state]
+            state: self.nodes[1].increment_time(time_of_deadlock, -self.times_dictionary[state])
             for state in self.times_dictionary.keys()
         }
 
